@@ -13,7 +13,7 @@ ID = 'C12'
 LEVEL = 'exploration'
 INCLUDE = spaces.C02_SIX + ['n_geos_max', 'n_pretest_max']
 RULE = ('Engine A (metamorphic): every base case of DEV(3,d) u DEV(4,d) (d = 1 | 2; + hand-picked 2-deviation cases in '
-        'quick), both searches, is re-run under 14 presentations: 3 row permutations (reverse, rotation, interleave), '
+        'quick; + panels with duplicate (geo,date) rows and with a missing cell), both searches, is re-run under 14 presentations: 3 row permutations (reverse, rotation, interleave), '
         '3 date offsets (+1 d, -400 d, +3653 d), IDs int<->str, 2 renamings that reverse the lexicographic order '
         '(eligibility renamed alike), scale c in {2^-20, 2^-3, 2, 2^10, 2^30} with the budget range scaled alike. Oracle: same designs '
         'after mapping IDs back (groups, verdicts, rounded correlation; impact and last score entry equal, or scaled '
@@ -106,6 +106,10 @@ def cases(tier, seed):
         ps.append({'name': 'C', 'G': 3, 'T': 12, 'seed': seed})
     for p in ps:
         out += list(spaces.with_methods(spaces.dev_configs(p, d, INCLUDE, base_kw={'n_designs': 4}, with_matrix_level=False)))
+    # panels with several rows per (geo, date) (averaged by the documented pivot) and with a missing cell
+    for p in ({'name': 'B', 'G': 3, 'T': 12, 'variant': 'dup'}, {'name': 'A', 'G': 3, 'T': 12, 'variant': 'missing'}):
+        out += list(spaces.with_methods(spaces.dev_configs(p, 1 if tier != 'thorough' else 2, ['budget_range', 'n_pretest_max', 'volume_ratio_tolerance'],
+                                                           base_kw={'n_designs': 4}, with_matrix_level=False)))
     if tier != 'thorough':
         p = {'name': 'B', 'G': 4, 'T': 12}
         b = spaces.budget_alphabet(p)
